@@ -37,9 +37,15 @@ CHECKS = {
          'of client and server expiry. CacheTtl.tla predicts CachePXAT/CachePTTL/CacheTTL for expiries around second boundaries. End to end: '
          'DoCache / DoMultiCache (default and static-TTL commands, lru and adapter store) against fakeredis with real time and TTLs of '
          '100-500 ms; CacheTtlObs.tla checks each result against sound bounds only (expiry within [t_call, t_return] + min(ttl, server part); '
-         'no hit of the entry from a call started after the upper bound; accessors consistent with clock readings around them).',
-    design_ref='DESIGN.md 4.3, 5 C07; proposed/design_store.md',
+         'no hit of the entry from a call started after the upper bound; accessors consistent with clock readings around them). '
+         'CacheFill.tla models one DoCache / DoMultiCache / DoCache(MGET) call between store and server (wire composed per missed item, '
+         'server answering each PTTL probe by the name it carries, reader applying answers >= 0; invariants EarlierOfBoth, ProbesNameKeys, '
+         'ProbeShape; three negative configs) and generates every complete behaviour as a case: command shape (GET, HGET, EVAL_RO, '
+         'EVALSHA_RO, FCALL_RO, MGET key) x call path x store x static tags x items already cached x server key state with PTTL answer '
+         '-2, -1, 0, 1, 40, ttl, ttl+5000 scripted in fakeredis; the wire of the real client is compared token by token (which argument '
+         'each probe names) and the observed expiries / later hits are judged by CacheTtlObs.tla with the exact answer.',
+    design_ref='DESIGN.md 4.3, 5 C07; design/store.md (round 2)',
     note='Trusted: TLC, fakeredis as the server (its PTTL within 2 ms), the wall clock. The exact "earlier of" rule is decided on the store '
-         'objects with a controlled clock; end to end only bounds of width (t_return - t_call) are decidable. The MGET / JSON.MGET refill '
-         'path (doCacheMGet) is not driven end to end here (C11 family). Bounded as C10.'),
+         'objects with a controlled clock; end to end only bounds of width (t_return - t_call) are decidable. JSON.MGET is not driven '
+         'end to end here. The CacheFill cases use one connection (PipelineMultiplex -1) and scripted PTTL answers. Bounded as C10.'),
 }
